@@ -175,6 +175,8 @@ Inductive op :=
                                   later calls of the same process are skipped (region-storage mode) *)
 | OLoadWarm (cached : cache)   (* LoadRegions(CheckAndPutLoadedRegion) over a cluster that already holds `cached` (direct backend:
                                   a member that is elected again without a restart reloads from etcd over its warm cache) *)
+| OFlushF                      (* Storage.Flush while the leveldb batch write fails (a transient fault): the error is returned and
+                                  the batch is kept for the next flush *)
 | OLoadOnceCorrupt (bad : Z).  (* LoadRegionsOnce while the stored value of region `bad` cannot be unmarshalled: the load
                                   fails at that item, after having delivered every region below it *)
 
@@ -298,6 +300,7 @@ Definition run_op (s : sstate) (o : op) : sstate * obs :=
       let '(st, acc, m', c) := page_loop (faults_of s rs) put_loaded rw_loaded region_limit_min (fuel_for m region_limit0)
                                          m 0 region_limit0 O cached [] in
       (set_regions s rs m', BCache st acc (sort_by_id c) m')
+  | OFlushF => (s, BErr)
   | OLoadOnceCorrupt bad =>
       let m := regions_of s (use_rs s) in
       match lookup m bad with
@@ -509,6 +512,7 @@ Fixpoint mon (w : want) (ops : list op) (obs_l : list obs) : option string :=
       | OSaveRegionF id v _, BUnit => mon (w_save w id v) r br
       | ODeleteRegionF id _, BUnit => mon (w_delete w id) r br
       | OTick, _ => mon (w_flush w) r br
+      | OFlushF, _ => mon w r br
       | OCrashInFlush _, _ => mon (w_crash w) r br
       | OLoadOnceIntoCache, BSkipped => mon w r br
       | OLoadWarm cached, BCache st loaded c after =>
